@@ -125,7 +125,7 @@ func genGe[T num](k *geKernels[T]) func(g *vlib.G) {
 													full := fmt.Sprintf("%s [alpha=%v beta=%v tail=%d]: %s", fname, alpha, beta, tail, msg)
 													if fn == 2 && beta == 0 && incY == 1 && tail > 0 && len(msg) > 4 && msg[:2] == "y:" {
 														// known finding: keep evaluating the rest of the case
-														t.FailClass(gemvTClass, "%s", full)
+														classed(t, gemvTClass, fmt.Sprintf("alpha=%v tail=%d", alpha, tail), "%s", full)
 														continue
 													}
 													t.Failf("%s", full)
